@@ -8,10 +8,10 @@ import (
 
 // Intrinsics of the harness API package verifh/sx.
 
-var sxIntrinsics map[string]intrinsic
+var sxIntrinsics = map[string]intrinsic{}
 
 func init() {
-	sxIntrinsics = map[string]intrinsic{
+	for k, v := range map[string]intrinsic{
 		"U8":   sxInt(8),
 		"U16":  sxInt(16),
 		"U32":  sxInt(32),
@@ -44,12 +44,20 @@ func init() {
 			if hi < lo {
 				panic(pathAbort{"engine", "sx.Range: empty range " + sS(a[0])})
 			}
+			if d, ok := w.nextFixed(sS(a[0])); ok && w.concrete {
+				w.draws = append(w.draws, Draw{Name: sS(a[0]), Kind: "range", Val: d.Val})
+				return vI(int(int64(d.Val))), true
+			}
 			k := w.split(hi - lo + 1)
 			w.draws = append(w.draws, Draw{Name: sS(a[0]), Kind: "range", Val: uint64(int64(lo + k))})
 			return vI(lo + k), true
 		},
 		"Choose": func(w *Worker, fr *frame, a []Value) (Value, bool) {
 			n := sI(a[1])
+			if d, ok := w.nextFixed(sS(a[0])); ok && w.concrete {
+				w.draws = append(w.draws, Draw{Name: sS(a[0]), Kind: "range", Val: d.Val})
+				return vI(int(d.Val)), true
+			}
 			k := w.split(n)
 			w.draws = append(w.draws, Draw{Name: sS(a[0]), Kind: "range", Val: uint64(k)})
 			return vI(k), true
@@ -95,6 +103,9 @@ func init() {
 			}
 			return a[1], true
 		},
+		"Native": func(w *Worker, fr *frame, a []Value) (Value, bool) {
+			return mkBool(false), true
+		},
 		"Symbolic": func(w *Worker, fr *frame, a []Value) (Value, bool) {
 			return mkBool(!w.concrete), true
 		},
@@ -133,6 +144,8 @@ func init() {
 		"EqBytes": func(w *Worker, fr *frame, a []Value) (Value, bool) {
 			return w.mkBoolT(w.strEq(sliceStr(w.asSlice(a[0])), sliceStr(w.asSlice(a[1])))), true
 		},
+	} {
+		sxIntrinsics[k] = v
 	}
 }
 
@@ -143,6 +156,10 @@ func sxInt(wd int) intrinsic {
 			panic(pathAbort{"engine", "sx draw during setup"})
 		}
 		if w.concrete {
+			if d, ok := w.nextFixed(name); ok {
+				w.draws = append(w.draws, Draw{Name: name, Kind: "int", W: wd, Val: d.Val & mask(wd)})
+				return mkInt(wd, d.Val), true
+			}
 			v := w.rng.Uint64() & mask(wd)
 			// bias towards boundary values
 			switch w.rng.Intn(6) {
@@ -168,6 +185,9 @@ func sxBool(w *Worker, fr *frame, a []Value) (Value, bool) {
 	name := sS(a[0])
 	if w.concrete {
 		v := w.rng.Intn(2)
+		if d, ok := w.nextFixed(name); ok {
+			v = int(d.Val & 1)
+		}
 		w.draws = append(w.draws, Draw{Name: name, Kind: "bool", Val: uint64(v)})
 		return mkBool(v == 1), true
 	}
@@ -183,6 +203,15 @@ func (w *Worker) drawBytes(name string, n int, kind string) []Int {
 	}
 	out := make([]Int, n)
 	if w.concrete {
+		if d, ok := w.nextFixed(name); ok {
+			bs := make([]byte, n)
+			copy(bs, d.Bytes)
+			for i := range bs {
+				out[i] = Int{W: 8, C: uint64(bs[i])}
+			}
+			w.draws = append(w.draws, Draw{Name: name, Kind: kind, Bytes: bs})
+			return out
+		}
 		bs := make([]byte, n)
 		mode := w.rng.Intn(4)
 		for i := range bs {
@@ -291,4 +320,24 @@ func observeTyped(t types.Type, v Value) string {
 		return "ptr"
 	}
 	return fmt.Sprintf("<%T>", v)
+}
+
+// nextFixed returns the next recorded draw when the worker replays a recorded
+// vector in concrete mode (environment draws are skipped).
+func (w *Worker) nextFixed(name string) (Draw, bool) {
+	if !w.concrete || w.fixed == nil {
+		return Draw{}, false
+	}
+	for w.fixedPos < len(w.fixed) && w.fixed[w.fixedPos].Kind == "env" {
+		w.fixedPos++
+	}
+	if w.fixedPos >= len(w.fixed) {
+		panic(pathAbort{"engine", "interpreter replay: draw " + name + " beyond the recorded draws"})
+	}
+	d := w.fixed[w.fixedPos]
+	w.fixedPos++
+	if d.Name != name {
+		panic(pathAbort{"engine", "interpreter replay: draw " + name + " does not match recorded " + d.Name})
+	}
+	return d, true
 }
